@@ -12,7 +12,7 @@ from xh_support import prepare_cattrs  # noqa: E402
 conv = prepare_cattrs("cl03.core.cattrs_converter")
 S = conv.structure_from_dict
 U = conv.unstructure_to_dict
-from cl03.models import Account, Address, Employee, Person, Stamps  # noqa: E402
+from cl03.models import Account, Address, Employee, Loose, Person, Stamps  # noqa: E402
 
 STATUS = ["active", "in-active", "on hold"]
 LEVEL = [1, 2, 3]
@@ -21,7 +21,9 @@ DAYS = ["2024-02-29", "1970-01-01"]
 UUIDS = ["123e4567-e89b-12d3-a456-426614174000", "00000000-0000-0000-0000-000000000000"]
 BLOBS = ["", "AA==", "aGVsbG8=", "++++/v79/A=="]  # the last one uses both characters that differ between the base64 alphabets
 
+TIMES = ["10:20:30", "23:59:59.500000", "00:00:00+02:00"]
 _WARM = [
+    (Loose, {"id": 1, "at": TIMES[0], "meta": {"a": {"b": 1}}, "payload": {"x": [1]}, "rows": [{"k": 1}], "note": {"n": 1}}),
     (Person, {"firstName": "a", "mood": None, "user_name_2": "u", "home-address": {"street": "s"}, "status": "active", "level": 1, "attrs": {"k": 1}, "addresses": [{"street": "t"}], "grid": [[{"cell-id": "g", "zip-code": "z"}]]}),
     (Stamps, {"created": WHENS[0], "born": DAYS[0], "avatar": BLOBS[1], "blob": BLOBS[2], "score": 1.5, "active": True}),
     (Employee, {"id": 1, "boss": "b", "office": {"street": "s"}}),
@@ -264,6 +266,53 @@ def tw_stamps_formats(w: int, has_born: bool, d: int, has_uid: bool, u: int, has
     post: _
     """
     U(S({"created": WHENS[w]}, Stamps))
+    return False
+
+
+def ob_loose_time(i: int, t: int) -> bool:
+    """
+    pre: 0 <= t <= 2
+    post: _
+    """
+    import datetime as dt
+
+    back = _norm(U(S({"id": i, "at": TIMES[t]}, Loose)))
+    return back.get("id") == i and isinstance(back.get("at"), str) and dt.time.fromisoformat(back["at"]) == dt.time.fromisoformat(TIMES[t])
+
+
+def tw_loose_time(i: int, t: int) -> bool:
+    """
+    pre: 0 <= t <= 2
+    post: _
+    """
+    U(S({"id": i, "at": TIMES[t]}, Loose))
+    return False
+
+
+def ob_loose_freeform(which: int, v: int, s: str, n: int) -> bool:
+    """
+    pre: 0 <= which <= 3 and len(s) <= 2 and 1 <= n <= 2
+    post: _
+    """
+    # an object whose schema declares no properties is a FREE-FORM object: its keys are data, not noise
+    doc = {"id": 1}
+    if which == 0:
+        doc["meta"] = {"a": v, "b": {"c": s}}
+    elif which == 1:
+        doc["payload"] = {"x": [v], "y": s}
+    elif which == 2:
+        doc["rows"] = [{"k": v + j, "s": s} for j in range(n)]
+    else:
+        doc["note"] = {"n": v}
+    return U(S(copy.deepcopy(doc), Loose)) is not None and _norm(U(S(copy.deepcopy(doc), Loose))) == _norm(doc)
+
+
+def tw_loose_freeform(which: int, v: int, s: str, n: int) -> bool:
+    """
+    pre: 0 <= which <= 3 and len(s) <= 2 and 1 <= n <= 2
+    post: _
+    """
+    U(S({"id": 1, "meta": {"a": v}}, Loose))
     return False
 
 
